@@ -476,7 +476,7 @@ theorem evalBuiltin_step {fuel : Nat} (ih : Spec fuel) : ∀ t ps st, Inv st →
     refine Post.ite (fun _ => Post.pure hIs hval) (fun _ => ?_)
     split
     · split
-      · refine Post.bind_read (runM_get s) ?_
+      · refine Post.bind_read (runM_curEnv s) ?_
         refine Post.bind (post_triggerNoCache hIs hIs.cur) ?_
         intro _ s2 hIs2 _ _
         exact Post.pure hIs2 (by simp [OkO, okObj, okPairs, errKey, valueKey])
